@@ -762,6 +762,85 @@ def check_dict_declared(ck, prog):
     return n
 
 
+def check_rewind(ck, prog, rule="C02-REWIND"):
+    """Single-call functions that save a position on entry (`const size_t out_start = *out_pos`) and put it back when
+    something goes wrong promise "on error the position is unchanged".  Callers rely on it: block_buffer_encode() writes
+    the uncompressed-chunk fallback at *out_pos after block_encode_normal() reported LZMA_BUF_ERROR.  Every exit with an
+    error value that is reachable after the position may have moved has to pass the restoring store."""
+    from sa import machine
+    ck.rule(rule, "single-call coders: every error return reachable after *pos moved passes the store `*pos = pos_start`")
+    cg = common.callgraph(prog)
+    rs = common.retsets(prog)
+    rets = common.lzma_ret(prog)
+    OKS = {rets["LZMA_OK"], rets["LZMA_STREAM_END"]}
+    n = 0
+    for f in sorted(prog.all_functions("liblzma"), key=lambda f: (f.file, f.line)):
+        if not f.blocks or not (f.ret or "").startswith("lzma_ret"):
+            continue
+        saved = {}
+        for b, i, e in f.iter_elems():
+            d = ex.deref(e)
+            if d.get("k") == "decl" and d.get("init") is not None:
+                i0 = ex.strip(d["init"])
+                if i0 is not None and i0.get("k") == "un" and i0["op"] == "*":
+                    v = ex.strip(i0["e"])
+                    if v is not None and v.get("k") == "var" and v.get("s") == "p":
+                        saved[d["n"]] = v["n"]
+        restores = {}
+        for b, i, e in f.iter_elems():
+            for (l, r, op, node) in ex.writes(e):
+                ls, rr = ex.strip(l), (ex.strip(r) if r is not None else None)
+                if ls is not None and ls.get("k") == "un" and ls["op"] == "*" and rr is not None and rr.get("k") == "var" \
+                        and rr["n"] in saved and ex.show(ex.strip(ls["e"])) == saved[rr["n"]] and op == "=":
+                    restores.setdefault(saved[rr["n"]], set()).add((b.id, i))
+        if not restores:
+            continue
+        ck.saw_function(f)
+        keys = [fd.Key("var", "ret", domain=rets.values(), label="ret"), fd.Key("retval", "$ret", label="$ret")]
+        g = fd.FD(prog, f, keys, cg=cg, call_values=lambda c, s_, f=f: rs.call_set(c, f))
+        g.run([g.make_state(**{"$ret": [machine.NO_RETURN_YET]})])
+        for pos, sites in sorted(restores.items()):
+            n += 1
+
+            def moves(b, i, e, states, pos=pos, sites=sites):
+                if (b.id, i) in sites:
+                    return False
+                for (l, r, op, node) in ex.writes(e):
+                    ls = ex.strip(l)
+                    if ls is not None and ls.get("k") == "un" and ls["op"] == "*" and ex.show(ex.strip(ls["e"])) == pos:
+                        return True
+                for c in ex.calls(e, into_refs=False):
+                    for a in c.get("args", ()):
+                        a0 = ex.strip(a)
+                        if a0 is not None and a0.get("k") == "var" and a0["n"] == pos:
+                            return True
+                return False
+
+            def kill(b, i, e, states, sites=sites):
+                return (b.id, i) in sites
+
+            def err_return(b, i, e, states):
+                d = ex.deref(e)
+                if d.get("k") != "ret":
+                    return False
+                for s_ in states:
+                    v = g.aeval(d.get("e"), s_)
+                    if v is None or any(x not in OKS for x in v):
+                        return True
+                return False
+            hits = fd.flagflow(g, moves, kill, err_return)
+            ck.ob(rule, "%s:%s" % (f.name, pos), not hits, common.where(f, hits[0][2] if hits else None),
+                  "%s: every error return after *%s moved passes `*%s = %s`" % (
+                      f.name, pos, pos, [k for k, v in saved.items() if v == pos][0]) if not hits else
+                  "%s(): `%s` can be reached with an error value after *%s was advanced (line %d) without restoring it: the "
+                  "caller is told that nothing was written/consumed while the position says otherwise (for the Block encoder "
+                  "the uncompressed fallback is then written behind the abandoned output)" % (
+                      f.name, ex.show(hits[0][2])[:40], pos, hits[0][3][2]),
+                  key="REWIND:%s:%s" % (f.name, pos))
+    ck.floor(rule, 8)
+    return n
+
+
 def run(ck):
     ck.explanation = (
         "Layout facts (constant-folded offsets, lengths, CRC ranges, flag bits, field order, byte order) are "
@@ -782,6 +861,11 @@ def run(ck):
     check_dict_rounding(ck, prog)
     check_bound(ck, prog)
     check_dict_declared(ck, prog)
+    check_rewind(ck, prog)
+    # "LZMA2 chunk sizes and properties describe the actual data": an accepted lc/lp/pb change resets the encoder state
+    # before the next chunk announces the new properties (rule shared with C12)
+    from . import C12
+    C12.check_upd(ck, prog)
     # the Check field of a Block is the CRC32/CRC64/SHA-256 of the data: the SHA-256 structure rules of C14
     from . import C14
     C14.check_sha(ck, prog)
